@@ -226,7 +226,7 @@ def strat_gene(draw, tier="quick"):
                     t["transcript_type"] = "ncRNA"
         else:
             s = strand if same else draw(st.sampled_from(["+", "-"]))
-            t = draw(S.transcript_spec(max_exons=3, max_len=7, strand=s, frameshift_prob=40))
+            t = draw(S.transcript_spec(max_exons=3, max_len=7, strand=s, frameshift_prob=40, cds_overlap_prob=8))
         t["transcript_id"] = "tx%d" % i
         t["is_primary_tx"] = draw(st.sampled_from([None, None, None, None, False, True]))
         txs.append(t)
